@@ -361,7 +361,8 @@ def real_configs(tier, seed):
         if i % 2 == 0:
             out.append(["bridge", str(r.range(1, 3)), str(r.range(1, 3)), str(r.range(10, 30)), str(r.below(1 << 30))])
         else:
-            out.append(["reflect", str(r.range(2, 5)), "0", str(r.range(10, 30)), str(r.below(1 << 30))])
+            # every other reflector scenario is long (bursts of one peer through the single forwarder of a reflector)
+            out.append(["reflect", str(r.range(2, 5)), "0", str(r.range(10, 30) if i % 4 == 1 else r.range(300, 500)), str(r.below(1 << 30))])
     return out
 
 
